@@ -99,7 +99,7 @@ impl Prop for C07 {
             flushes: vec![],
             buffered: false,
             gate_calls: vec![],
-            trace: false,
+            trace: idx % 16 == 3,
             inbound,
             reads,
             writes: vec![],
@@ -209,7 +209,7 @@ impl Prop for C07 {
             flushes,
             buffered,
             gate_calls: vec![],
-            trace: false,
+            trace: rng.chance(1, 8),
             inbound,
             reads,
             writes,
@@ -235,6 +235,18 @@ impl Prop for C07 {
     fn preludes(&self, sc: &StreamScenario) -> Vec<StreamScenario> {
         crate::streamprop::stream_preludes(sc)
     }
+    fn repro_variants(&self, sc: &StreamScenario) -> Vec<StreamScenario> {
+        // tracing keeps a process-wide callsite cache: a case found with `trace: false` while
+        // another worker had a subscriber reproduces on its own only with `trace: true`
+        if sc.trace {
+            vec![]
+        } else {
+            let mut v = sc.clone();
+            v.trace = true;
+            vec![v]
+        }
+    }
+
     fn rule(&self) -> String {
         "Each case is one read-only session whose inbound history mixes keep-alives (TINY_NONE, reqi 0) with TINY frames of every sub-type and request id and with every other packet kind, under seeded segmentation and Pending polls. Oracle over the captured outgoing bytes: only whole TINY_NONE/0 frames are ever written; a reply is never started before the link has delivered a keep-alive that justifies it; when the j-th keep-alive is handed to the caller at least j complete replies are on the wire; at the end replies == keep-alives. Non-trivial = a frame was split or a Pending fired; distinct by trace signature. The sweep covers every (sub-type, reqi) pair.".into()
     }
